@@ -34,7 +34,8 @@
 //   ADDNET state nc cells* nx xs* ny ys* weight
 //   SETNETS state nl lim* nc cells* nx xs* ny ys* nw weights*
 //   CCHK state                          Circuit::check()
-//   ENTER stage state fields(k=0)       stage 0 placeGlobal,1 legalize,2 placeDetailed (const ColoquinteParameters&)
+//   ENTER stage state fields(k=0)       stage 0 placeGlobal,1 legalize,2 placeDetailed (const ColoquinteParameters&); CHILD PROCESS
+//                                       (a child killed by a signal -- SIGFPE, SIGSEGV, SIGABRT, SIGXCPU after 30 s of CPU -- prints "DIED signal n ...")
 //   ENTERE stage state effort           stage 0..2 as above with (int effort), 3 = place(effort); CHILD PROCESS
 //                                       -> "OK | state" | "THROW msg | state" | "ABORT" ...   (state after the call)
 //   PSEQ k effort [state if k=0] n steps ONE object P = struct k built with that effort lives through n steps (stale state kept
@@ -52,6 +53,7 @@
 #include "vh.hpp"
 #include <cmath>
 #include <sys/wait.h>
+#include <sys/resource.h>
 #include <unistd.h>
 #include <stdexcept>
 #include <type_traits>
@@ -313,6 +315,8 @@ template <class F> static std::string inChild(F f) {
   if (pid == 0) {
     close(po[0]); close(pe[0]); dup2(pe[1], 2);
     signal(SIGABRT, SIG_DFL); signal(SIGSEGV, SIG_DFL); signal(SIGFPE, SIG_DFL); signal(SIGBUS, SIG_DFL);
+    // a case that does not end is a death too: CPU-time limit of the child (SIGXCPU = signal 24), not wall clock (loaded machines)
+    { struct rlimit rl; rl.rlim_cur = 30; rl.rlim_max = 40; setrlimit(RLIMIT_CPU, &rl); signal(SIGXCPU, SIG_DFL); }
     std::string r;
     try { r = f(); }
     catch (const std::runtime_error &e) { r = std::string("THROW ") + e.what(); }
@@ -330,7 +334,8 @@ template <class F> static std::string inChild(F f) {
   if (WIFEXITED(st) && WEXITSTATUS(st) == 0 && !out.empty() && out.back() == '\n') { out.pop_back(); return out; }
   // died: say how, with the first informative line of stderr
   std::ostringstream o; o << "DIED ";
-  if (WIFSIGNALED(st)) o << "signal " << WTERMSIG(st); else o << "exit " << WEXITSTATUS(st);
+  if (WIFSIGNALED(st)) { o << "signal " << WTERMSIG(st) << " (" << strsignal(WTERMSIG(st)) << ")"; if (WTERMSIG(st) == SIGXCPU) o << " did not finish within 30 s of CPU time"; }
+  else o << "exit " << WEXITSTATUS(st);
   std::istringstream es(err); std::string l, pick;
   while (std::getline(es, l)) {
     if (l.find("runtime error:") != std::string::npos || l.find("AddressSanitizer") != std::string::npos ||
@@ -356,7 +361,7 @@ int main(int argc, char **argv) {
     if (sigsetjmp(vh_jmp, 1) == 0) {
       try {
         if (tag == "CTOR") { int k = t.ni(), e = t.ni(); res = inChild([&] { return ctorCase(k, e); }); }
-        else if (tag == "ENTERE") { res = inChild([&] { return circuitCase(tag, t); }); }
+        else if (tag == "ENTERE" || tag == "ENTER") { res = inChild([&] { return circuitCase(tag, t); }); }
         else if (tag == "PSEQ") {
           g_seq.clear();
           int k = t.ni();
